@@ -20,7 +20,7 @@ import c08_util as U
 
 PROP_FILE = "Props/C08.v"
 T0 = 1700000000
-UNREACHABLE = {"Fs_Netbsd_x8664_Lastlogx"}       # class layout_not_offered_by_filesz_to_types
+UNREACHABLE = set()       # was {"Fs_Netbsd_x8664_Lastlogx"} (layout never offered by filesz_to_types) until fix commit dd987c74
 DT_FMT = "%s.%6f|"
 
 
